@@ -1152,6 +1152,14 @@ Definition go_client_Conn_h_AUTHENTICATE (conn_cfg_Sasl : option go_sasl_Client)
           let out : list bytes := out ++ t4 in
           Ok (conn_saslRemainingData, out))))).
 
+(* Conn.SupportsCapability — client/connection.go *)
+Definition go_client_Conn_SupportsCapability (conn_supportedCaps : kmap) (cap : bytes) : res bool :=
+  go_client_capSet_Has conn_supportedCaps cap.
+
+(* Conn.HasCapability — client/connection.go *)
+Definition go_client_Conn_HasCapability (conn_currCaps : kmap) (cap : bytes) : res bool :=
+  go_client_capSet_Has conn_currCaps cap.
+
 (* Conn.h_STNICK — client/state_handlers.go *)
 Definition go_client_Conn_h_STNICK (conn_st : option ST) (line_Args : list bytes) (line_Nick : bytes) : res (option ST) :=
   t1 <- elem_at line_Args 0 ;;
